@@ -71,6 +71,8 @@ type World struct {
 	confSet map[types.TransactionID]bool
 	// ExpectTSetOK: the next V2TransactionSet input is a legitimate one (valid as of a basis that was a tip, within the supported distance)
 	ExpectTSetOK bool
+	// ArmFlush: the next Submit on a probed node lets the database fail the final flush once
+	ArmFlush bool
 	// LenientLedger: CheckLedgerProofs skips inputs the ledger does not hold
 	LenientLedger bool
 	// TxEra is the signature era (consensus replay prefix regime) a v1 transaction was signed in.  The
@@ -485,7 +487,68 @@ func (w *World) Submit(id int) {
 	}
 	old := w.TipID()
 	var err error
-	if w.Guard("addblocks-panic", fmt.Sprintf("AddBlocks(block %d)", id), func() { err = w.Node.CM.AddBlocks([]types.Block{w.Tree.Blocks[id].Block}) }) {
+	armed := w.ArmFlush && w.Node.Probe != nil
+	w.ArmFlush = false
+	if armed {
+		w.Node.Probe.FailNextFlush()
+	}
+	panicked := w.Guard("addblocks-panic", fmt.Sprintf("AddBlocks(block %d)", id), func() { err = w.Node.CM.AddBlocks([]types.Block{w.Tree.Blocks[id].Block}) })
+	flushFailed := false
+	if armed {
+		flushFailed = w.Node.Probe.DisarmFlush()
+	}
+	if panicked {
+		return
+	}
+	if flushFailed {
+		// the database failed the flush at the end of the reorg to this block: the manager reports an
+		// error and rolls back to the old tip.  Underneath the pool the blocks of the path were applied
+		// and reverted again (two reorgs for the model); whatever the tip is now, the reported pool
+		// must be a valid continuation of it.
+		w.Stats["failed-flush"]++
+		if err == nil {
+			w.C.Oracle("addblocks-ok-although-flush-failed", "AddBlocks(block %d) returned no error although the final flush failed", id)
+		}
+		cur := w.TipID()
+		rev, app := w.Path(old, id)
+		w.declarePath(rev, app)
+		for _, i := range app {
+			w.Applied[i] = true
+		}
+		emit := func(rev, app []int) {
+			if w.OnPath != nil {
+				w.OnPath(rev, app)
+			}
+			if len(rev) > 0 {
+				w.lastRevV2 = nil
+				for _, txn := range w.Tree.Blocks[rev[0]].Block.V2Transactions() {
+					if !txn.MinerFee.IsZero() {
+						w.lastRevV2 = append(w.lastRevV2, txn)
+					}
+				}
+			}
+			cs := w.Node.CM.TipState()
+			var sb strings.Builder
+			fmt.Fprintf(&sb, "reorg %s %d", pathStr(rev, app), len(w.lastRevV2))
+			for _, txn := range w.lastRevV2 {
+				fmt.Fprintf(&sb, " %d", b01(cs.Elements.ValidateTransactionElements(txn) != nil))
+			}
+			w.C.Op(sb.String(), "ok")
+		}
+		if cur == old {
+			back, forth := w.Path(id, old)
+			emit(rev, app)
+			emit(back, forth)
+			return
+		}
+		// (that a failed submission moved the tip is C01's finding; here the question is what the pool
+		// reports on the tip the manager is at now)
+		w.Stats["failed-flush-tip-moved"]++
+		w.Known[id] = true
+		if err := w.Led.Follow(w.Node.CM, 1000); err != nil {
+			w.C.Oracle("updates-since-failed", "shadow ledger cannot follow: %v", err)
+		}
+		emit(rev, app)
 		return
 	}
 	if err != nil {
@@ -911,6 +974,12 @@ func (w *World) Mine() (id int, ok bool) {
 
 // Finish registers the case.
 func (w *World) Finish(nontrivial bool, tags ...string) {
+	if w.Stats["failed-flush"] > 0 {
+		tags = append(tags, "failed-flush-rolled-back")
+	}
+	if w.Node.Probe != nil {
+		tags = append(tags, "probed-store")
+	}
 	w.C.Nontrivial = nontrivial
 	w.C.Tags = append(w.C.Tags, tags...)
 	w.C.Info = map[string]any{"stats": w.Stats, "blocks": len(w.Tree.Blocks)}
